@@ -257,6 +257,103 @@ func checkCompacted(pol uint64, s *uefi.NVarStore, origLen int, want []liveVar) 
 	return checkCompactedBytes(pol, append([]byte{}, s.Buf()...), origLen, want)
 }
 
+// ---- a value that is itself an NVAR store (AMI StdDefaults/MfgDefaults) ----
+// nvram-compact compacts nested stores too, so such a value is not carried byte
+// for byte: it must keep its length, hold only Full entries, and have the live
+// set (recursively) of the most recent value.
+
+type liveNode struct {
+	guid, name, value []byte
+	store             bool
+	sub               []liveNode
+}
+
+func liveTreeOf(s *uefi.NVarStore) []liveNode {
+	var l []liveNode
+	for _, e := range s.Entries {
+		if !e.IsValid() || e.NextOffset != 0 {
+			continue
+		}
+		n := liveNode{guid: append([]byte{}, e.GUID[:]...), name: []byte(e.Name), value: e.Buf()[e.DataOffset:]}
+		if e.NVarStore != nil {
+			n.store, n.sub = true, liveTreeOf(e.NVarStore)
+		}
+		l = append(l, n)
+	}
+	return l
+}
+
+func sameLiveTree(pol uint64, a, b []liveNode, path string) string {
+	if len(a) != len(b) {
+		return fmt.Sprintf(" nested%s: %d live variables, want %d", path, len(a), len(b))
+	}
+	for i := range a {
+		p := fmt.Sprintf("%s/%d", path, i)
+		if !bytes.Equal(a[i].guid, b[i].guid) || !bytes.Equal(a[i].name, b[i].name) {
+			return " nested" + p + ": guid or name"
+		}
+		if !a[i].store && b[i].store && len(b[i].sub) == 0 && len(a[i].value) == len(b[i].value) &&
+			uefi.IsErased(a[i].value, byte(pol)) {
+			continue // a store without live variables compacts to erased bytes
+		}
+		if a[i].store != b[i].store {
+			return " nested" + p + ": store-ness"
+		}
+		if a[i].store {
+			if len(a[i].value) != len(b[i].value) {
+				return " nested" + p + ": length"
+			}
+			if m := sameLiveTree(pol, a[i].sub, b[i].sub, p); m != "" {
+				return m
+			}
+		} else if !bytes.Equal(a[i].value, b[i].value) {
+			return " nested" + p + ": value"
+		}
+	}
+	return ""
+}
+
+func onlyFull(s *uefi.NVarStore) bool {
+	for _, e := range s.Entries {
+		if e.Type != uefi.FullNVarEntry || e.NextOffset != 0 || e.Header.Attributes&uefi.NVarEntryDataOnly != 0 {
+			return false
+		}
+		if e.NVarStore != nil && !onlyFull(e.NVarStore) {
+			return false
+		}
+	}
+	return true
+}
+
+// does entry e (of a re-parsed compacted store) carry the value want?
+func valueCarried(pol uint64, e *uefi.NVar, want []byte) string {
+	got := e.Buf()[e.DataOffset:]
+	var ws *uefi.NVarStore
+	if len(want) >= 4 && string(want[:4]) == "NVAR" {
+		ws, _ = parse(pol, append([]byte{}, want...))
+	}
+	if ws == nil {
+		if !bytes.Equal(got, want) {
+			return " bytes"
+		}
+		return ""
+	}
+	if len(got) != len(want) {
+		return " nested: length"
+	}
+	if e.NVarStore == nil {
+		// a store without live variables compacts to erased bytes, which no longer start an entry
+		if len(liveTreeOf(ws)) == 0 && uefi.IsErased(got, byte(pol)) {
+			return ""
+		}
+		return " nested: no longer a store"
+	}
+	if !onlyFull(e.NVarStore) {
+		return " nested: not compacted"
+	}
+	return sameLiveTree(pol, liveTreeOf(e.NVarStore), liveTreeOf(ws), "")
+}
+
 // the same on the bytes of a compacted store (as found in a saved image)
 func checkCompactedBytes(pol uint64, out []byte, origLen int, want []liveVar) string {
 	if len(out) != origLen {
@@ -284,8 +381,8 @@ func checkCompactedBytes(pol uint64, out []byte, origLen int, want []liveVar) st
 		if e.Name != string(w.name) {
 			return fmt.Sprintf("FAIL entry %d name %q want %q", i, e.Name, string(w.name))
 		}
-		if !bytes.Equal(e.Buf()[e.DataOffset:], w.value) {
-			return fmt.Sprintf("FAIL entry %d value", i)
+		if msg := valueCarried(pol, e, w.value); msg != "" {
+			return fmt.Sprintf("FAIL entry %d value%s", i, msg)
 		}
 		if e.GUIDIndex != nil {
 			// rebuilt table: first-use order, no duplicates
@@ -1134,6 +1231,95 @@ func mutate(r *Rng, s *gStore) (byte, []byte) {
 }
 
 // a store whose variable contents are themselves stores
+// a store with a variable that was updated through a link chain and whose old
+// and/or new value is itself a store. combo: 0 = both, same length; 1 = both,
+// different lengths; 2 = only the old value; 3 = only the new value
+func genChainNested(r *Rng, combo int) *gStore {
+	s := genStoreD(r, true)
+	inner := func() *gStore {
+		for {
+			var in *gStore
+			if r.Chance(1, 4) {
+				in = genNested(r, 1, false, int(s.pol))
+			} else {
+				in = genStoreD(r, false)
+				in.pol = s.pol
+			}
+			if len(in.entries) > 0 && in.entries[0].fixed == nil && len(in.bytes()) < 12000 {
+				return in
+			}
+		}
+	}
+	plain := func() []byte {
+		d := r.Bytes(r.Pick(0, 1, 7, 30))
+		if len(d) > 0 && d[0] == 'N' {
+			d[0] = 'M'
+		}
+		return d
+	}
+	var oldV, newV []byte
+	switch combo {
+	case 0, 1:
+		a, b := inner(), inner()
+		la, lb := len(a.bytes()), len(b.bytes())
+		if combo == 0 {
+			if la < lb {
+				a.free += lb - la
+			} else {
+				b.free += la - lb
+			}
+		} else if la == lb {
+			b.free += r.Range(1, 9)
+		}
+		oldV, newV = a.bytes(), b.bytes()
+	case 2:
+		oldV, newV = inner().bytes(), plain()
+	default:
+		oldV, newV = plain(), inner().bytes()
+	}
+	vr := 0
+	for _, e := range s.entries {
+		if e.vr >= vr {
+			vr = e.vr + 1
+		}
+	}
+	ascii := r.Bool()
+	attrs := byte(0x84) | byte(r.Pick(0, 1, 0x20, 0x40))
+	if ascii {
+		attrs |= 0x02
+	}
+	head := &gEntry{attrs: attrs, vr: vr, gidx: -1, nextTo: -1, guid: r.Bytes(16), data: oldV}
+	head.raw, head.name = genName(r, ascii)
+	chain := []*gEntry{head}
+	if r.Chance(1, 3) { // a version in between
+		mid := &gEntry{attrs: 0x88 | (attrs & 0x40), vr: vr, gidx: -1, nextTo: -1, guid: head.guid, name: head.name}
+		if r.Bool() {
+			mid.data = plain()
+		} else {
+			mid.data = inner().bytes()
+		}
+		chain = append(chain, mid)
+	}
+	tail := &gEntry{attrs: 0x88 | (attrs & 0x40), vr: vr, gidx: -1, nextTo: -1, guid: head.guid, name: head.name, data: newV, last: true}
+	chain = append(chain, tail)
+	// the chain goes behind the other entries, sometimes with an unrelated entry in between
+	for i, e := range chain {
+		if i > 0 && r.Chance(1, 3) {
+			s.entries = append(s.entries, &gEntry{attrs: 0x08, vr: -1, gidx: -1, nextTo: -1})
+		}
+		s.entries = append(s.entries, e)
+		if i > 0 {
+			prev := chain[i-1]
+			for j, x := range s.entries {
+				if x == prev {
+					s.entries[j].nextTo = len(s.entries) - 1
+				}
+			}
+		}
+	}
+	return s
+}
+
 func genNested(r *Rng, depth int, hostile bool, pol int) *gStore {
 	s := genStoreD(r, depth == 2) // inner stores without deleted chains: keeps the nesting small
 	if pol >= 0 {
@@ -1251,7 +1437,26 @@ func gen(r *Rng, tier string, emit Emit) {
 			emit("C", "seq", npol, genOps(rr, ns.live(), 4), H(nb))
 			if !hostile {
 				emit("P", "p_roundtrip", npol, H(nb))
+				emit("P", "p_compact", append([]string{npol, H(nb)}, liveArgs(ns.live())...)...)
 			}
+		}
+		// a variable updated through a link chain whose old and/or new value is a nested store
+		if it%2 == 1 {
+			rc := rr.Fork(7711)
+			cs := genChainNested(rc, (it/2)%4)
+			cb := cs.bytes()
+			cpol := N(uint64(cs.pol))
+			clive := cs.live()
+			emit("P", "p_roundtrip", cpol, H(cb))
+			emit("P", "p_compact", append([]string{cpol, H(cb)}, liveArgs(clive)...)...)
+			cn := invName(rc, clive, 1, 2)
+			emit("P", "p_invcompact", append([]string{cpol, H(cn), H(cb)}, liveArgs(clive)...)...)
+			for _, ops := range []string{"c,c", genOps(rc, clive, 3)} {
+				emit("P", "p_seq", append([]string{cpol, ops, H(cb)}, liveArgs(clive)...)...)
+				emit("C", "seq", cpol, ops, H(cb))
+			}
+			emit("C", "parse", cpol, H(cb))
+			emit("C", "compact", cpol, H(cb))
 		}
 	}
 }
